@@ -44,7 +44,7 @@ def check(replay=None):
         n = 12 if not thorough else 80
         for i in range(n):
             if i % 5 == 4:
-                docs.append({"kind": "list", "inserters": rng.choice([2, 3, 6]), "nkeys": rng.choice([10, 25])})
+                docs.append({"kind": "list", "inserters": rng.choice([2, 3, 6]), "nkeys": rng.choice([10, 25]), "yield_seed": rng.choice([0, rng.randrange(1, 1 << 30)])})
             else:
                 docs.append({"kind": "skip", "height": rng.choice([1, 2, 2, 3, 12]), "inserters": rng.choice([2, 3, 4, 8]), "readers": rng.choice([1, 2, 4]),
                              "nkeys": rng.choice([12, 24, 48]), "pattern": rng.choice(["asc", "desc", "mixed"]),
